@@ -57,6 +57,21 @@ EXTRA_PAIRS = [
     ("BC1", ["C02"]),
     ("OR6", ["C11", "C03"]),   # a failed delete must not leave a live entry whose chain is already free
     ("CD1", ["C10"]),   # an entry naming the wrong start cluster refers to a free / foreign cluster          # a frame without a valid CRC-7 is rejected by cards that check it (CMD0/CMD8 always do)   # create only when the name is definitively absent (no error masquerading as NotFound): unique names
+    # --- round 6
+    ("LS4", ["C01"]),    # a lookup that cannot see entries in later clusters makes written data unreadable (and re-creates the file)
+    ("FT13", ["C02", "C04"]),   # treating cluster 0/1 as data clusters rewrites FAT[0] (media descriptor) in both copies
+    ("BC1", ["C03", "C06"]),   # a poisoned cache block is written back into a directory / FAT sector, or listed as another directory
+    ("SD7", ["C04"]),    # the card address decides which device block is written
+    ("OR6", ["C09"]),
+    ("OR1", ["C11"]),
+    ("MT4", ["C16"]),    # FSInfo sentinels: a truthful count (incl. 0) is tracked, only 0xFFFFFFFF means unknown
+    ("MT1", ["C16"]),
+    ("MT5", ["C16"]),
+    ("SD9", ["C19"]), ("SD10", ["C19"]), ("SD11", ["C19"]),   # the data checksum is verified / sent for every block, high byte first
+    ("IS2", ["C10", "C15"]),   # the FSInfo signatures survive every rewrite of the sector (the volume must still mount)
+    ("NC1", ["C02", "C09", "C10"]),
+    ("TR1", ["C02", "C09"]),
+    ("LS6", ["C02"]),
 ]
 EXTRA = {}
 for _k, _v in EXTRA_PAIRS:      # a rule may be listed several times (one line per reason): the lists add up
